@@ -2,7 +2,7 @@ SPEC = {
     'id': 'C14',
     'harness': 'hC14',
     'coq_dir': 'C14',
-    'claimed': False,
+    'claimed': True,
     'theorems': [
         'C14_del_after_add_obs_id', 'C14_failed_transfer_no_local_effect', 'C14_queries_invariant',
         'C14_del_after_add_queries', 'C14_index_entries_exact', 'C14_addr_counts_restored',
